@@ -514,7 +514,7 @@ func specMacros(ex *Expect, o *Op) {
 			}
 		}
 		var mm map[string]any
-		if json.Unmarshal([]byte(cur), &mm) != nil {
+		if decodeExact([]byte(cur), &mm) != nil || mm == nil {
 			continue
 		}
 		if m.Type == 0 {
